@@ -68,6 +68,37 @@ pub fn thread_cpu_ms() -> f64 {
     ts.tv_sec as f64 * 1e3 + ts.tv_nsec as f64 / 1e6
 }
 
+/// Process CPU time at which the job in flight started (0 = none), for the watchdog below.
+static JOB_START_CPU_MS: std::sync::atomic::AtomicU64 = std::sync::atomic::AtomicU64::new(0);
+
+fn process_cpu_ms() -> u64 {
+    let mut ts = libc::timespec {
+        tv_sec: 0,
+        tv_nsec: 0,
+    };
+    // SAFETY: plain syscall wrapper writing into a local struct
+    unsafe {
+        libc::clock_gettime(libc::CLOCK_PROCESS_CPUTIME_ID, &mut ts);
+    }
+    ts.tv_sec as u64 * 1000 + ts.tv_nsec as u64 / 1_000_000
+}
+
+/// Ends the process with SIGXCPU as soon as ONE job has used more than `limit_ms` of CPU, so that a job that does not
+/// terminate costs its budget and not the CPU limit of the whole shard. The driver re-runs that job alone to confirm.
+fn spawn_job_watchdog(limit_ms: u64) {
+    std::thread::spawn(move || loop {
+        std::thread::sleep(std::time::Duration::from_millis(250));
+        let t0 = JOB_START_CPU_MS.load(std::sync::atomic::Ordering::Relaxed);
+        if t0 != 0 && process_cpu_ms().saturating_sub(t0) > limit_ms {
+            // SAFETY: sending a signal to ourselves
+            unsafe {
+                libc::signal(libc::SIGXCPU, libc::SIG_DFL);
+                libc::kill(libc::getpid(), libc::SIGXCPU);
+            }
+        }
+    });
+}
+
 fn arg_values(args: &[String], key: &str) -> Vec<String> {
     let mut out = vec![];
     let mut i = 0;
@@ -147,6 +178,9 @@ struct Job {
     /// modules reachable from it, the way generate-ui does
     #[serde(default)]
     path: Option<String>,
+    /// stop after UiDocument::parse (used to attribute a CPU-budget overrun to the parser call)
+    #[serde(default)]
+    parse_only: bool,
 }
 
 fn default_type_name() -> String {
@@ -244,6 +278,10 @@ fn cmd_translate(args: &[String]) -> io::Result<()> {
     let ctx_omit = mk(DynamicBindingHandling::Omit)?;
 
     let mut out = open_out(args)?;
+    let job_cpu_ms: u64 = arg_values(args, "--job-cpu-ms").first().and_then(|s| s.parse().ok()).unwrap_or(0);
+    if job_cpu_ms > 0 {
+        spawn_job_watchdog(job_cpu_ms);
+    }
     for line in open_jobs(args, "--jobs")?.lines() {
         let line = line?;
         if line.trim().is_empty() {
@@ -253,6 +291,7 @@ fn cmd_translate(args: &[String]) -> io::Result<()> {
         // announce the job first: if the process dies inside it, the driver knows which one
         writeln!(out, "{}", json!({"begin": job.id}))?;
         out.flush()?;
+        JOB_START_CPU_MS.store(process_cpu_ms().max(1), std::sync::atomic::Ordering::Relaxed);
         if let Some(path) = &job.path {
             // fresh type map: directory modules are inserted into it
             let path = Utf8PathBuf::from(path);
@@ -347,6 +386,11 @@ fn run_one(ctx: &BuildContext, preloaded: Option<&UiDocument>, job: &Job, mode: 
     let src_len = source_text.len();
     let has_syntax_error = doc.has_syntax_error();
     res["has_syntax_error"] = json!(has_syntax_error);
+    if job.parse_only {
+        res["parsed"] = json!(true);
+        res["cpu_ms"] = json!(thread_cpu_ms() - t0);
+        return res;
+    }
 
     let mut range_alarms: Vec<String> = vec![];
     let mut check_range = |what: &str, s: usize, e: usize| {
